@@ -282,6 +282,9 @@ func (u *Unit) Journal(c any) {
 	_ = os.WriteFile(*flagStats+".journal", b, 0o644)
 }
 
+// ReplayRepeat is how often a saved case is re-executed in replay mode (set > 1 by simulated checks).
+var ReplayRepeat = 1
+
 // ReplayMode reports whether the process was started to replay a file.
 func ReplayMode() bool { return *flagReplay != "" }
 
@@ -310,9 +313,13 @@ func RunRapid[C any](t *testing.T, unit string, gen func(*rapid.T) C, check func
 		if err := json.Unmarshal(rf.Case, &c); err != nil {
 			t.Fatalf("bad replay case: %v", err)
 		}
-		u.Case()
-		if v := run(c); v != nil {
-			u.Fail(t, v, c)
+		// simulated cases are not bit-reproducible (scheduler, crypto/rand): repeat
+		for i := 0; i < ReplayRepeat; i++ {
+			u.Case()
+			if v := run(c); v != nil {
+				v.Detail = fmt.Sprintf("[reproduced on replay run %d of at most %d] %s", i+1, ReplayRepeat, v.Detail)
+				u.Fail(t, v, c)
+			}
 		}
 		return
 	}
